@@ -892,6 +892,10 @@ def plan(tier, seed):
     part("odd-outputs", "a section of a plain output; an IO whose standard output is decorated and whose error output is not, and the "
                         "reverse (the bar draws on the error output): all operations, throttle off, no clock advance", odd, clocks=(0,),
          depth=4 if T else 3)
+    # ---- a minimum interval LONGER than the bar's own "redraw at the latest after 1 s" rule: the minimum wins
+    slow = [C(3, 4, "default", o, 2.0, cap=None) for o in ("ansi", "plain")]
+    part("slow-throttle", "minimum interval 2 s (above the 1 s 'not later than' rule): progress operations x clock advances {0, 1.5 s, 2.05 s}",
+         slow, clocks=(0, 1536, 2100), opset="progress", depth=4 if T else 3)
     # ---- timing: the progress operations x every clock advance
     what = "start/advance(1)/advance(3)/set_progress(max)/display/finish x all clock advances; "
     tim3 = [C(3, 4, "default", "ansi", 0.1), C(3, 4, "default", "plain", 0.1), C(3, 4, "default", "ansi", 0),
